@@ -13,8 +13,6 @@
     * `in/out/both` from an *edge* ignore the label list,
     * `select` of one undefined mark (null element typed NoData), of several marks (undefined ones
       are left out), what `as`, `select`, `fields` do to the path,
-    * `as` after `count`/`render`/`select(a,b)` resets the count/render/selection (AddMark copies
-      only current, marks and path).
   Statements without a C01 meaning (aggregate, mark/jump, set/increment, *Null moves,
   lookupVertsIndex, engineCustom) are the identity here; the properties that own them refine
   `evalStep` on their fragment.
